@@ -136,7 +136,7 @@ class Faithful(Harness):
 
 
 class Numbering(Harness):
-    witnesses = ('width_grows_inside_the_doctest', 'file_relative', 'want_hidden_gap')
+    witnesses = ('width_grows_inside_the_doctest', 'file_relative', 'want_hidden_gap', 'argument_overrides_config')
 
     def __init__(self, job):
         instrumented()
@@ -149,6 +149,9 @@ class Numbering(Harness):
         self.nwant = [z3.Int('n_want%d' % i) for i in range(P)]
         self.lead = z3.Int('leading_text_lines')
         self.rel = z3.Bool('offset_linenos')
+        self.via_config = z3.Bool('requested_through_config')   # the numbering is requested by config['offset_linenos'] (argument None) or by the argument
+        self.cfg_other = z3.Bool('config_says_the_opposite')     # ... while the configuration holds the other value
+        self.cfg_colored = z3.Bool('config_colored')
         self.want = z3.Bool('want')
         self.base = [z3.Or([self.start == s for s in STARTS]), self.lead >= 0, self.lead <= 2]
         for i in range(P):
@@ -175,7 +178,17 @@ class Numbering(Harness):
             off += ns + nw
         dt = self.de.DocTest('', None, 'f', 0, start, mode='native')
         dt._parts = parts
-        text = dt.format_src(linenos=True, colored=False, want=want, offset_linenos=rel, prefix=True)
+        via_config = bool(SymBool(self.via_config))
+        dt.config['colored'] = bool(SymBool(self.cfg_colored))
+        if via_config:
+            dt.config['offset_linenos'] = rel
+            arg = None
+        else:
+            dt.config['offset_linenos'] = (not rel) if bool(SymBool(self.cfg_other)) else rel
+            arg = rel
+            if dt.config['offset_linenos'] != rel:
+                ex.witness('argument_overrides_config', True)
+        text = dt.format_src(linenos=True, colored=False, want=want, offset_linenos=arg, prefix=True)
         lines = text.split('\n')
         ok = len(lines) == len(expected)
         widths = set()
@@ -203,7 +216,9 @@ class Numbering(Harness):
         def n(v):
             return model.eval(v, model_completion=True).as_long()
         return {'harness': 'num', 'lineno': n(self.start), 'leading_text_lines': n(self.lead), 'parts': [(n(self.nsrc[i]), n(self.nwant[i])) for i in range(self.P)],
-                'offset_linenos': z3.is_true(model.eval(self.rel, model_completion=True)), 'want': z3.is_true(model.eval(self.want, model_completion=True))}
+                'offset_linenos': z3.is_true(model.eval(self.rel, model_completion=True)), 'want': z3.is_true(model.eval(self.want, model_completion=True)),
+                'via_config': z3.is_true(model.eval(self.via_config, model_completion=True)), 'config_other': z3.is_true(model.eval(self.cfg_other, model_completion=True)),
+                'config_colored': z3.is_true(model.eval(self.cfg_colored, model_completion=True))}
 
 
 def build(job):
@@ -237,7 +252,14 @@ def replay(job, cex):
         off += ns + nw
     dt = doctest_example.DocTest('', None, 'f', 0, cex['lineno'], mode='native')
     dt._parts = parts
-    text = dt.format_src(linenos=True, colored=False, want=cex['want'], offset_linenos=cex['offset_linenos'], prefix=True)
+    dt.config['colored'] = cex.get('config_colored', False)
+    if cex.get('via_config'):
+        dt.config['offset_linenos'] = cex['offset_linenos']
+        arg = None
+    else:
+        dt.config['offset_linenos'] = (not cex['offset_linenos']) if cex.get('config_other') else cex['offset_linenos']
+        arg = cex['offset_linenos']
+    text = dt.format_src(linenos=True, colored=False, want=cex['want'], offset_linenos=arg, prefix=True)
     lines = text.split('\n')
     bad = len(lines) != len(expected)
     widths = set()
